@@ -428,9 +428,42 @@ fn try_gen_op(m: &Model, rng: &mut Rng, prof: &Profile, home: &[Lid]) -> Option<
                 // bound to the empty namespace name (such a node has no XML representation)
                 let prefix = gen_prefix(rng);
                 let uri = if prefix.is_empty() || !prof.representable_ns_only { gen_uri(rng) } else { rng.pick_str(&URIS).to_string() };
+                if rng.pct(4) {
+                    // the built-in pair, declared explicitly
+                    return Some(Op::NewNs { prefix: "xml".into(), uri: absdoc::XML_NS.into() });
+                }
                 Op::NewNs { prefix, uri }
             }
         }),
+        1 if rng.pct(15) => {
+            // the same kind of tree through the `fixed` helper structures; their vectors may repeat
+            // an attribute name or a prefix and hold text in adjacent pieces
+            let cfg = GenCfg::swarm(rng);
+            let mut e = absdoc::gen_elem(rng, &cfg, &vec![], 1, &mut 200);
+            fn dup(e: &mut absdoc::AElem, rng: &mut Rng) {
+                if !e.attrs.is_empty() && rng.pct(35) {
+                    let mut a = rng.pick(&e.attrs).clone();
+                    a.2 = rng.pick_str(&ATTR_VALUES[..8]).to_string();
+                    let at = rng.below(e.attrs.len() + 1);
+                    e.attrs.insert(at, a);
+                }
+                if !e.decls.is_empty() && rng.pct(35) {
+                    let mut d = rng.pick(&e.decls).clone();
+                    if rng.pct(50) {
+                        d.1 = rng.pick_str(&URIS).to_string();
+                    }
+                    let at = rng.below(e.decls.len() + 1);
+                    e.decls.insert(at, d);
+                }
+                for k in e.kids.iter_mut() {
+                    if let absdoc::AContent::Elem(c) = k {
+                        dup(c, rng);
+                    }
+                }
+            }
+            dup(&mut e, rng);
+            Some(Op::Xotify { e, document: rng.pct(40), split: rng.pct(50) })
+        }
         1 => {
             let fragment = rng.pct(35);
             let mut text = gen_xml_text(rng, fragment);
@@ -583,8 +616,13 @@ fn try_gen_op(m: &Model, rng: &mut Rng, prof: &Profile, home: &[Lid]) -> Option<
                     _ => Op::AttrEntry { e, name, mode: entry_mode(rng), value },
                 }
             } else {
-                let prefix = ns_key(m, e, rng);
-                let uri = if !prof.representable_ns_only && rng.pct(8) { String::new() } else { rng.pick(&URIS).to_string() };
+                let mut prefix = ns_key(m, e, rng);
+                let mut uri = if !prof.representable_ns_only && rng.pct(8) { String::new() } else { rng.pick(&URIS).to_string() };
+                if rng.pct(4) {
+                    // the built-in pair, declared (or removed again) explicitly
+                    prefix = "xml".into();
+                    uri = absdoc::XML_NS.into();
+                }
                 if rng.pct(12) {
                     let mut items = vec![(prefix, if rng.pct(80) { Some(uri) } else { None })];
                     for _ in 0..rng.range(1, 3) {
